@@ -94,8 +94,9 @@ Definition update (s : store) (o n : rule) : store * bool :=
   end.
 
 (* model.UpdatePolicies: pairwise update; a missing old rule triggers the deferred rollback
-   over modifiedRuleIndex (index -> (old, new)); the rollback iterates a Go map, the model
-   iterates in insertion order (under the guard of the theorems the order is irrelevant). *)
+   over modifiedRuleIndex (index -> (old, new)); the rollback iterates a Go map (unspecified
+   order), the model iterates newest entry first (under the guard of the theorems every
+   order gives the same result; the correspondence check compares only such cases). *)
 Definition rollback_one (s : store) (e : nat * (rule * rule)) : store :=
   let '(i, (o, n)) := e in
   {| pol := set_nth i o (pol s); idx := set (key o) i (del (key n) (idx s)) |}.
@@ -111,7 +112,7 @@ Fixpoint update_many_loop (s : store) (os ns : list rule) (modified : list (nat 
   match os, ns with
   | o :: os', n :: ns' =>
       match lookup (key o) (idx s) with
-      | None => (fold_left rollback_one modified s, false)
+      | None => (fold_left rollback_one (rev modified) s, false)
       | Some i =>
           update_many_loop
             {| pol := set_nth i n (pol s); idx := set (key n) i (del (key o) (idx s)) |}
@@ -207,4 +208,90 @@ Definition spec_insert (prio : option nat) (l : list rule) (r : rule) : list rul
       | None => l ++ [r]
       end
   | None => l ++ [r]
+  end.
+
+(* spec of the batch operations *)
+Fixpoint spec_add_many (prio : option nat) (l : list rule) (rs : list rule) : list rule * list rule :=
+  match rs with
+  | [] => (l, [])
+  | r :: t => if mem_rule r l then spec_add_many prio l t
+              else let '(l', aff) := spec_add_many prio (spec_insert prio l r) t in (l', r :: aff)
+  end.
+
+Fixpoint spec_remove_many (l : list rule) (rs : list rule) : list rule * list rule :=
+  match rs with
+  | [] => (l, [])
+  | r :: t => let '(l', aff) := spec_remove_many (remove_first r l) t in
+              (l', if mem_rule r l then r :: aff else aff)
+  end.
+
+Fixpoint spec_update_many (l : list rule) (os ns : list rule) : option (list rule) :=
+  match os, ns with
+  | o :: os', n :: ns' => if mem_rule o l then spec_update_many (replace_first o n l) os' ns' else None
+  | _, _ => Some l
+  end.
+
+(* ---------- the management API on one assertion, memory only ----------
+   internal_api.go without adapter, watcher, dispatcher and role managers: the pre-checks and
+   the boolean results of Add/Remove/Update(Filtered)Polic(y|ies)(Ex). *)
+Inductive sop :=
+| OAdd (r : rule)
+| OAddMany (rs : list rule)        (* AddPolicies: refused when any rule is listed *)
+| OAddManyEx (rs : list rule)      (* AddPoliciesEx: listed rules are skipped *)
+| ORemove (r : rule)
+| ORemoveMany (rs : list rule)
+| OUpdate (o n : rule)
+| OUpdateMany (os ns : list rule)
+| ORemoveFiltered (fi : nat) (fvs : list string)
+| OClear.
+
+Inductive sres := RBool (b : bool) | RErr | RPanic.
+
+Definition api_step (prio : option nat) (s : store) (op : sop) : store * sres :=
+  match op with
+  | OAdd r => if has s r then (s, RBool false) else (add prio s r, RBool true)
+  | OAddMany rs => if has_any s rs then (s, RBool false) else (fst (add_many prio s rs), RBool true)
+  | OAddManyEx rs => (fst (add_many prio s rs), RBool true)
+  | ORemove r => let '(s', b) := remove s r in (s', RBool b)
+  | ORemoveMany rs =>
+      if has_any s rs then
+        let '(s', aff) := remove_many s rs in (s', RBool (match aff with [] => false | _ => true end))
+      else (s, RBool false)
+  | OUpdate o n => let '(s', b) := update s o n in (s', RBool b)
+  | OUpdateMany os ns =>
+      if Nat.eqb (List.length os) (List.length ns)
+      then let '(s', b) := update_many s os ns in (s', RBool b)
+      else (s, RErr)
+  | ORemoveFiltered fi fvs =>
+      match fvs with
+      | [] => (s, RErr)
+      | _ => match remove_filtered s fi fvs with
+             | Some (s', b, _) => (s', RBool b)
+             | None => (s, RPanic)
+             end
+      end
+  | OClear => (clear s, RBool true)
+  end.
+
+(* the same calls on the specification: an ordered list without duplicates *)
+Definition spec_step (prio : option nat) (l : list rule) (op : sop) : list rule * sres :=
+  match op with
+  | OAdd r => if mem_rule r l then (l, RBool false) else (spec_insert prio l r, RBool true)
+  | OAddMany rs => if existsb (fun r => mem_rule r l) rs then (l, RBool false)
+                   else (fst (spec_add_many prio l rs), RBool true)
+  | OAddManyEx rs => (fst (spec_add_many prio l rs), RBool true)
+  | ORemove r => (remove_first r l, RBool (mem_rule r l))
+  | ORemoveMany rs => if existsb (fun r => mem_rule r l) rs
+                      then (fst (spec_remove_many l rs), RBool true) else (l, RBool false)
+  | OUpdate o n => (replace_first o n l, RBool (mem_rule o l))
+  | OUpdateMany os ns =>
+      if Nat.eqb (List.length os) (List.length ns)
+      then match spec_update_many l os ns with Some l' => (l', RBool true) | None => (l, RBool false) end
+      else (l, RErr)
+  | ORemoveFiltered fi fvs =>
+      match fvs with
+      | [] => (l, RErr)
+      | _ => (filter (fun r => negb (matches_spec fi fvs r)) l, RBool (existsb (matches_spec fi fvs) l))
+      end
+  | OClear => ([], RBool true)
   end.
